@@ -227,6 +227,8 @@ class Repo:
                 except SyntaxError as e:
                     raise AnalysisError("cannot parse %s: %s" % (path, e))
             tree = normalise(tree)
+            from . import alpha
+            self.renamed = getattr(self, "renamed", 0) + alpha.restore_names(tree, m)
             self.mods[m] = tree
             self.src[m] = text.split("\n")
             self._index(tree, m)
